@@ -114,7 +114,7 @@ theorem fragData_close (P : Params) (F : FSt) (hop : ∀ fb, F.opn = some fb →
   cases hfb : F.opn with
   | none => rfl
   | some fb =>
-    simp only [FSt.fragData, hfb]
+    simp only [FSt.fragData, openBytes, hfb]
     by_cases hi : fb.index = i
     · simp [hi]
     · simp [hi]
@@ -304,7 +304,7 @@ theorem FInv.placeNew {P : Params} {n : Nat} {done : List Blk} {F : FSt} (h : FI
   · intro c hc
     obtain ⟨blk, h1, h2, h3⟩ := h.chunks c hc
     refine ⟨blk, ?_, h2, h3⟩
-    simp only [FSt.fragData, hop] at h1 ⊢
+    simp only [FSt.fragData, openBytes, hop] at h1 ⊢
     have hci : c.index < F.ntbl := by
       cases hf : F.closed.find? (fun e => e.1 == c.index) with
       | none => rw [hf] at h1; cases h1
@@ -327,7 +327,7 @@ theorem FInv.placeAppend {P : Params} {n : Nat} {done : List Blk} {F : FSt} (h :
     exact ⟨fbRaw_add hraw x.flags, hidx, by simp; omega, by simpa using hfit, hfresh⟩
   · intro c hc
     obtain ⟨blk, h1, h2, h3⟩ := h.chunks c hc
-    simp only [FSt.fragData, hop] at h1 ⊢
+    simp only [FSt.fragData, openBytes, hop] at h1 ⊢
     by_cases hi : fb.index = c.index
     · simp only [hi, if_true, Option.some.injEq] at h1 ⊢
       subst h1
@@ -378,7 +378,7 @@ theorem FInv.store {P : Params} {n : Nat} {done : List Blk} {F : FSt} (h : FInv 
         { F1 with ntbl := F1.ntbl + 1, opn := some { x with index := F1.ntbl, flags := (x.flags &&& blkDontCompress) ||| blkFragmentBlock } }
         x.data x.chk (x.flags &&& blkDontCompress))
       ⟨F1.ntbl, 0, x.data.length, x.chk, x.flags &&& blkDontCompress⟩
-      ⟨x.data, by simp [FSt.fragData], by simp, length_pos_of_ne_nil hne⟩
+      ⟨x.data, by simp [FSt.fragData, openBytes], by simp, length_pos_of_ne_nil hne⟩
     exact hi.addEffs (mkEff x.inode (.fragLoc F1.ntbl 0)) (mkEff_id_lt hid hidn _)
       (fun e he => Or.inl ⟨_, _, (mem_mkEff he).2⟩)
   | some fb =>
@@ -389,7 +389,7 @@ theorem FInv.store {P : Params} {n : Nat} {done : List Blk} {F : FSt} (h : FInv 
         { F1 with opn := some { fb with data := fb.data ++ x.data, flags := fb.flags ||| (x.flags &&& blkDontCompress) } }
         x.data x.chk (x.flags &&& blkDontCompress))
       ⟨fb.index, fb.data.length, x.data.length, x.chk, x.flags &&& blkDontCompress⟩
-      ⟨fb.data ++ x.data, by simp [FSt.fragData], by simp, length_pos_of_ne_nil hne⟩
+      ⟨fb.data ++ x.data, by simp [FSt.fragData, openBytes], by simp, length_pos_of_ne_nil hne⟩
     exact hi.addEffs (mkEff x.inode (.fragLoc fb.index fb.data.length)) (mkEff_id_lt hid hidn _)
       (fun e he => Or.inl ⟨_, _, (mem_mkEff he).2⟩)
 
